@@ -17,10 +17,13 @@ func cmdGen(args []string) {
 	seed := fs.Int64("seed", 1, "seed")
 	man := fs.String("manifest", "", "manifest jsonl")
 	self := fs.Bool("selftest", false, "one package per snippet x theme")
+	big := fs.String("big", "", "write one package with this name containing every real-API snippet")
 	fs.Parse(args)
 	g := &progen.Gen{Out: *out, ModPath: *mod, Rng: rand.New(rand.NewSource(*seed))}
 	var err error
-	if *self {
+	if *big != "" {
+		_, err = g.Big(*big)
+	} else if *self {
 		err = g.SelfTest(*man)
 	} else {
 		err = g.Generate(*n, *man)
